@@ -9,7 +9,7 @@ import string
 
 from ..astutil import call_name, calls_in, dotted, func_defaults, name_stores, returns_of, unparse, walk_local
 from ..index import FuncInfo
-from ..report import Registry, sub
+from ..report import Registry, chain, sub
 from ._helpers_rules_a import self_attr
 
 R = Registry(
@@ -21,7 +21,11 @@ R = Registry(
         "component's group in the _parse_url regex (plus '%') is always escaped by the writer's quote(safe=...) "
         "call for that component; regex group names map onto URL.create parameters; __eq__ compares all seven "
         "fields, __hash__ depends only on them, __copy__ passes all of them in order; hosts containing ':' are "
-        "bracketed by the writer and only bracketed hosts may contain ':' for the reader; port is str()/int()."
+        "bracketed by the writer and only bracketed hosts may contain ':' for the reader; port is str()/int(). "
+        "Encoders are followed through helper functions of engine/url.py / methods of URL (arguments, defaults, "
+        "module constants). Between make_url() and the regex, and between the regex groups and URL.create, the "
+        "reader applies no str-normalising call (strip/lower/replace/...) that touches a character the writer "
+        "emits literally (R5)."
     ),
     not_decided="round trip of urllib quote/unquote themselves over full unicode; validity of host syntax.",
 )
@@ -97,6 +101,9 @@ def _str_const(ctx, node, env, mod, what):
         cl = env[node.id]
         v, origin = _str_const(ctx, cl.node, cl.env, mod, what)
         return v, origin or cl.origin
+    if isinstance(node, ast.BinOp) and isinstance(node.op, ast.Add):
+        (a, oa), (b, ob) = _str_const(ctx, node.left, env, mod, what), _str_const(ctx, node.right, env, mod, what)
+        return a + b, oa or ob
     if isinstance(node, ast.Name) and node.id in mod.assigns and len(mod.assigns[node.id]) == 1:
         v = ctx.ev.module_value(mod, node.id)
         if isinstance(v, str):
@@ -321,6 +328,20 @@ def r1(ctx):
               f"{sorted(final)}", r.loc)
 
 
+def _transitive_self_reads(ctx, f, seen=None):
+    """self.<attr> read by a method, with self.<method> replaced by what that method reads."""
+    seen = set() if seen is None else seen
+    seen.add(f.name)
+    out = set()
+    for x in _self_fields_in(f.node):
+        m = ctx.index.resolve_method(f.cls, x) if f.cls is not None else None
+        if m is None:
+            out.add(x)
+        elif m.name not in seen:
+            out |= _transitive_self_reads(ctx, m, seen)
+    return out
+
+
 def _url_fields(ctx):
     cls = ctx.index.cls(f"{URLPY}::URL")
     fields = [st.target.id for st in cls.node.body
@@ -533,7 +554,7 @@ def r3(ctx):
                 and a.args[0].id == "self":
             # str(self) -> __str__/__repr__ -> render_as_string: reads only fields
             w = ctx.func(f"{URLPY}::URL.render_as_string")
-            reads = {x for x in _self_fields_in(w.node) if x not in ("render_as_string",)}
+            reads = _transitive_self_reads(ctx, w)
             extra = reads - set(fields)
             ok = not extra
             detail = f"hash(str(self)); render_as_string reads {sorted(reads)}"
@@ -869,8 +890,7 @@ def r5(ctx):
                 chars |= set(safe)
             literal[g] = (chars, "written with safe=" + "/".join(sorted({repr(sf) for _n, sf, _c, _h in calls})))
         else:
-            ctx.require(g in RAW_VALID, f"group `{g}` is written raw but no valid-character class is known for it")
-            literal[g] = (RAW_VALID[g], "written raw")
+            literal[g] = (RAW_VALID.get(g, ANY_ASCII), "written raw")
     tail = _tail_fields(ctx, w)
     if tail is None:
         ctx.note("render_as_string: accumulator shape not understood; every component is assumed able to end the URL")
@@ -1031,3 +1051,64 @@ R.mutant("benign-eq-reordered", URLPY,
          sub("            and self.database == other.database\n            and self.query == other.query\n",
              "            and other.query == self.query\n            and self.database == other.database\n"), None)
 R.mutant("benign-stricter-safe", URLPY, sub('            s += quote(self.username, safe=" +")\n', '            s += quote(self.username, safe=" ")\n'), None)
+
+# ---- seeds / strengthen round (str-h) ----------------------------------------------------------
+_HELPER = ('def _parse_url(name: str) -> URL:\n',
+           'def _rfc_1738_quote(text: str, safe: str = " +/") -> str:\n    return quote(text, safe=safe)\n\n\n'
+           'def _parse_url(name: str) -> URL:\n')
+_PW_VIA_HELPER = sub('                    else quote(str(self.password), safe=" +")\n',
+                     '                    else _rfc_1738_quote(str(self.password), safe=" +")\n')
+_DB_VIA_HELPER = sub('            s += "/" + quote(self.database, safe=" +/")\n', '            s += "/" + _rfc_1738_quote(self.database)\n')
+# seed C20/1: quoting routed through a helper; the username call takes the helper's default `safe`, which keeps '/'
+R.mutant("r2-seed1-helper-default-safe-for-username", URLPY,
+         chain(sub(*_HELPER), _PW_VIA_HELPER, _DB_VIA_HELPER,
+               sub('            s += quote(self.username, safe=" +")\n', '            s += _rfc_1738_quote(self.username)\n')), "C20-R2")
+R.mutant("r2-helper-module-constant-safe", URLPY,
+         chain(sub('def _parse_url(name: str) -> URL:\n',
+                   '_USERINFO_SAFE = " +:"\n\n\ndef _q(text: str) -> str:\n    keep = _USERINFO_SAFE\n    return quote(text, safe=keep)\n\n\n'
+                   'def _parse_url(name: str) -> URL:\n'),
+               sub('            s += quote(self.username, safe=" +")\n', '            s += _q(self.username)\n')), "C20-R2")
+R.mutant("r1-helper-without-encoder", URLPY,
+         chain(sub('def _parse_url(name: str) -> URL:\n',
+                   'def _ident(text: str) -> str:\n    return text\n\n\ndef _parse_url(name: str) -> URL:\n'),
+               sub('            s += "/" + quote(self.database, safe=" +/")\n', '            s += "/" + _ident(self.database)\n')), "C20-R1")
+# the same refactoring done right: every call site keeps its own safe set
+R.mutant("benign-quoting-through-helper", URLPY,
+         chain(sub(*_HELPER), _PW_VIA_HELPER, _DB_VIA_HELPER,
+               sub('            s += quote(self.username, safe=" +")\n', '            s += _rfc_1738_quote(self.username, safe=" +")\n')), None)
+R.mutant("benign-quoting-through-static-method", URLPY,
+         chain(sub('    def __repr__(self) -> str:\n        return self.render_as_string()\n',
+                   '    @staticmethod\n    def _q(text: str, extra: str = "") -> str:\n        enc = quote(text, safe=" +" + extra)\n        return enc\n\n'
+                   '    def __repr__(self) -> str:\n        return self.render_as_string()\n'),
+               sub('            s += quote(self.username, safe=" +")\n', '            s += self._q(self.username)\n'),
+               sub('            s += "/" + quote(self.database, safe=" +/")\n', '            s += "/" + self._q(self.database, "/")\n')), None)
+R.mutant("r2-static-helper-extra-safe-colon", URLPY,
+         chain(sub('    def __repr__(self) -> str:\n        return self.render_as_string()\n',
+                   '    @staticmethod\n    def _q(text: str, extra: str = "") -> str:\n        enc = quote(text, safe=" +" + extra)\n        return enc\n\n'
+                   '    def __repr__(self) -> str:\n        return self.render_as_string()\n'),
+               sub('            s += quote(self.username, safe=" +")\n', '            s += self._q(self.username, extra=":")\n')), "C20-R2")
+# seed C20/2: the reader normalises the URL text; the writer leaves ' ' unescaped and `database` can end the URL
+R.mutant("r5-seed2-make-url-strips-text", URLPY,
+         sub("        return _parse_url(name_or_url)\n", "        return _parse_url(name_or_url.strip())\n"), "C20-R5")
+R.mutant("r5-match-on-rstripped-text", URLPY,
+         sub("    m = pattern.match(name)\n", "    m = pattern.match(name.rstrip())\n"), "C20-R5")
+R.mutant("r5-text-lowercased", URLPY,
+         sub("        return _parse_url(name_or_url)\n", "        return _parse_url(name_or_url.lower())\n"), "C20-R5")
+R.mutant("r5-decoded-component-stripped", URLPY,
+         sub("                components[comp] = unquote(components[comp])\n",
+             "                components[comp] = unquote(components[comp]).strip()\n"), "C20-R5")
+R.mutant("r5-query-keys-lowercased", URLPY,
+         sub('                if key in query:\n', '                key = key.lower()\n                if key in query:\n'), "C20-R5")
+R.mutant("r5-database-trailing-slash-dropped", URLPY,
+         sub('        ipv4host = components.pop("ipv4host")\n',
+             '        if components["database"]:\n            components["database"] = components["database"].rstrip("/")\n'
+             '        ipv4host = components.pop("ipv4host")\n'), "C20-R5")
+# normalisations that only touch characters the writer always percent-encodes, or that are diagnostics
+R.mutant("benign-reader-drops-newlines-and-nul", URLPY,
+         sub("        return _parse_url(name_or_url)\n",
+             '        return _parse_url(name_or_url.replace("\\n", "").rstrip("\\r\\x00"))\n'), None)
+R.mutant("benign-normalised-text-in-error-message", URLPY,
+         sub('            "Could not parse SQLAlchemy URL from given URL string"\n',
+             '            "Could not parse SQLAlchemy URL from given URL string %r" % name.strip()[0:8]\n'), None)
+R.mutant("benign-stricter-safe-and-lstrip", URLPY,
+         sub("        return _parse_url(name_or_url)\n", '        return _parse_url(name_or_url.lstrip(" \\t"))\n'), None)
